@@ -86,6 +86,16 @@ class Mk:
     if 'sub' in d:
       cls, v = d['sub']
       return getattr(stubmod, cls)(v)
+    if 'meth' in d:
+      obj = stubmod
+      for part in d['meth'].split('.'):
+        obj = getattr(obj, part)
+      return obj
+    if 'mcfg' in d:
+      obj = stubmod
+      for part in d['mcfg'].split('.'):
+        obj = getattr(obj, part)
+      return fdl.Config(obj, n=4) if 'regular' in d['mcfg'] else fdl.Partial(obj)
     if 'novalue' in d:
       return fdl.NO_VALUE
     if 'const' in d:
@@ -164,6 +174,12 @@ def gen_value(rng, big):
                                    ['Mode', 'SLOW'], ['Perm', 'R'], ['Perm', 'W']])}
     if r < 0.865:
       return {'sub': rng.choice([['MyInt', 7], ['MyStr', 'seven']])}
+    if r < 0.885 and not hashable_only:
+      # methods: via the defining class (serialisable), inherited through a
+      # subclass or bound to an instance (not importable as such: must be loud)
+      m = rng.choice(['Shape.regular', 'Triangle.regular', 'SHAPE_OBJ.describe',
+                      'Shape.describe'])
+      return {rng.choice(['meth', 'mcfg']): m}
     if r < 0.92 and not hashable_only:
       return {'novalue': 1}
     if r < 0.96 and not hashable_only:
@@ -557,7 +573,7 @@ def V(clause, msg, **extra):
 
 def leaf_kinds(d, acc):
   if isinstance(d, dict):
-    for k in ('bytes', 'str', 'float', 'int', 'enum', 'enum2', 'sub', 'set', 'fset', 'slice',
+    for k in ('bytes', 'str', 'float', 'int', 'enum', 'enum2', 'sub', 'meth', 'mcfg', 'set', 'fset', 'slice',
               'nt', 'ddict', 'kdict', 'plain', 'tv', 'novalue', 'const', 'node',
               'share'):
       if k in d:
@@ -749,8 +765,25 @@ def run(case):
       pol = RecordingPolicy(restrictive=True)
       shim = ImportShim(pol, fail=fail_map)
       serialization.importlib = shim
+      via_zlib = (dmgs[0]['seed'] % 3 == 0)
       try:
-        back = serialization.load_json(doc, pyref_policy=pol)
+        if via_zlib:
+          # the flag transport: the (damaged) document packed, then the packed
+          # text damaged as well (stripped padding / flipped character)
+          import base64, zlib, random as _r
+          rr = _r.Random(dmgs[0]['seed'])
+          packed = base64.urlsafe_b64encode(zlib.compress(doc.encode())).decode('ascii')
+          how = rr.choice(['strip_padding', 'strip_padding', 'flip', 'none'])
+          if how == 'strip_padding':
+            packed = packed.rstrip('=')
+          elif how == 'flip' and packed:
+            i = rr.randrange(len(packed))
+            packed = packed[:i] + rr.choice('ABCxyz019-_') + packed[i + 1:]
+          from fiddle._src.absl_flags import utils as flag_utils
+          bump(faults, 'doc_zlib_' + how)
+          back = flag_utils.ZlibJSONSerializer().deserialize(packed, pyref_policy=pol)
+        else:
+          back = serialization.load_json(doc, pyref_policy=pol)
         raised = None
       except BaseException as e:  # pylint: disable=broad-except
         if isinstance(e, (KeyboardInterrupt, SystemExit)):
